@@ -112,6 +112,25 @@ def versions(history):
                 evolutions.setdefault(st_['app'], [])
         out.append({'spec': spec, 'apps': list(apps), 'evolutions': copy.deepcopy(evolutions),
                     'deps': copy.deepcopy(deps)})
+    # "after the whole app" means after every evolution that app will ever have: once the
+    # app gains an evolution written later (which itself comes after this one) the pair
+    # would be a cycle, so such a declaration is only kept while it can be met
+    order = {}
+    for i, st_ in enumerate(history['steps']):
+        if st_['type'] == 'evolve':
+            order[(st_['app'], st_['label'])] = i
+    for v in out:
+        for app, d in v['deps'].items():
+            for label, pe in (d.get('per_evolution') or {}).items():
+                mine = order.get((app, label), -1)
+                keep = []
+                for t in pe.get('AFTER_EVOLUTIONS', []):
+                    if isinstance(t, str) and any(
+                            order.get((t, e['label']), -1) > mine
+                            for e in v['evolutions'].get(t, [])):
+                        continue
+                    keep.append(t)
+                pe['AFTER_EVOLUTIONS'] = keep
     return out
 
 
